@@ -11,6 +11,7 @@ package main
 //   args: #<int>  $<hex string>  ?<0|1>  !<err class|0>  @<closure/aux id>  O<op>  or a value literal
 
 import (
+	"bytes"
 	"fmt"
 	"log"
 	"math/rand"
@@ -73,7 +74,9 @@ func init() {
 // ---------------------------------------------------------------------------
 // argument generation by parameter type
 
-var anyPool = []string{"C n - - c1 N", "C n - - - N", "C a - - c2 i1", "N", "i7", "i1", "i2", "s78", "b1", "K n k=4 [ i1 ]", "K a k=1 [ ]", "C n - 6b c1 i2", "Z n", "Y n", "o20:1", "o20:5", "o21:1", "o1:1", "s-", "A [ s414e44 i1 ]"}
+var anyPool = []string{"C n - - c1 N", "C n - - - N", "C a - - c2 i1", "N", "i7", "i1", "i2", "s78", "b1", "K n k=4 [ i1 ]", "K a k=1 [ ]", "C n - 6b c1 i2", "Z n", "Y n", "o20:1", "o20:5", "o21:1", "o1:1", "s-", "A [ s414e44 i1 ]",
+	// live instances carrying a permissive / a rejecting EqualityPolicy: the receiver's state decides, not the argument's closure
+	"K n k=1,eqf=1 [ ]", "K n k=4,eqf=1 [ i1 ]", "K a k=2,eqf=2 [ ]", "C n eqf=1 6b c1 i2", "C n eqf=1 - - N", "C a eqf=2 6b c1 i2"}
 
 func genArgs(r *rand.Rand, m reflect.Method, name string) ([]string, bool) {
 	var args []string
@@ -340,6 +343,26 @@ func splitArgs(s string) []string {
 	return strings.Split(s, " , ")
 }
 
+var pkgLogSink bytes.Buffer
+
+// setPkgDefaults switches the package-level defaults (loggers, log levels) to what an application that wants logging sets, or back
+func setPkgDefaults(on bool) {
+	defer func() { recover() }()
+	if on {
+		pkgLogSink.Reset()
+		lg := log.New(&pkgLogSink, "pkg ", 0)
+		stackage.SetDefaultStackLogger(lg)
+		stackage.SetDefaultConditionLogger(lg)
+		stackage.SetDefaultStackLogLevel(stackage.AllLogLevels)
+		stackage.SetDefaultConditionLogLevel(stackage.AllLogLevels)
+		return
+	}
+	stackage.SetDefaultStackLogger("off")
+	stackage.SetDefaultConditionLogger("off")
+	stackage.SetDefaultStackLogLevel(stackage.NoLogLevels)
+	stackage.SetDefaultConditionLogLevel(stackage.NoLogLevels)
+}
+
 // prepared: a call whose arguments have been built once, so that several goroutines can issue the very same call (same
 // receiver instance, same argument values) at the same time
 type prepared struct {
@@ -447,6 +470,13 @@ var _ = log.New
 func runSweep(payload string) string {
 	parts := strings.SplitN(payload, " | ", 3)
 	mode := parts[0]
+	if strings.HasSuffix(parts[1], "+d") {
+		// the application has configured the package: default loggers that do not discard, every default log level on.
+		// That concerns instances created from now on - never what an inert instance answers.
+		parts[1] = strings.TrimSuffix(parts[1], "+d")
+		setPkgDefaults(true)
+		defer setPkgDefaults(false)
+	}
 	r := buildRecv(parts[1])
 	d0 := deepDump(r.val())
 	var roChild any // nestedro: the read-only Stack nested in the (writable) receiver
@@ -681,6 +711,9 @@ func genInert(r *rand.Rand, id string, tier string) string {
 	kind := "stack"
 	if strings.HasSuffix(recv, "cond") {
 		kind = "cond"
+	}
+	if r.Intn(3) == 0 {
+		recv += "+d" // with package-level defaults set by the application (see runSweep)
 	}
 	names := methodNames(kind)
 	var calls []string
